@@ -202,7 +202,9 @@ class ContinuousVariable(Variable):
         if value != value:
             # NaN passes through np.clip unchanged: replace it by a fresh value of the domain
             value = self.randomize()
-        return float(np.clip(value, self.lower_bound, self.upper_bound))
+        # np.clip works in the precision of a float32 / float16 scalar, where a bound like 0.1 is rounded: clip the
+        # resulting double once more
+        return min(max(float(np.clip(value, self.lower_bound, self.upper_bound)), self.lower_bound), self.upper_bound)
 
     def decode(self, value: float) -> float:
         return value
@@ -274,7 +276,7 @@ class DiscreteVariable(Variable):
         if value != value:
             # NaN cannot be converted to an index: replace it by a fresh value of the domain
             value = self.randomize()
-        return int(np.clip(value, lb, ub))
+        return min(max(int(np.clip(value, lb, ub)), lb), ub)
 
     def decode(self, value: float | int) -> Any:
         return self.choices[int(value)]
